@@ -164,7 +164,13 @@ def _cf_call(cf, k, style):
 
 def obs_cf(m):
     cf = _lib()[5]
-    res, lists = _run(lambda: [_cf_call(cf, k, (m + k) % 4) for k in range(1, m + 1)])
+    def go():
+        lists = [_cf_call(cf, k, (m + k) % 4) for k in range(1, m + 1)]
+        # the list for n = m is asked for a second time, in the same spelling, after the first answer was wrecked
+        lists[-1] = _cf_call(cf, m, (m + m) % 4)
+        return lists
+
+    res, lists = _run(go)
     return dict(kind="cf", m=m, res=res, lists=lists if res == "ok" else [])
 
 
@@ -214,6 +220,12 @@ def _legacy_build(mode, n, route):
     return tk, _strs(arr), _items(tmap)
 
 
+def _wreck(tk):
+    arr, tmap = tk.token_arr, tk.tokenizer_map
+    _clobber(arr, "<clobbered>")
+    _clobber(tmap, None)
+
+
 def _m1(v):
     v = _int(v)
     return -1 if v == BADINT else v
@@ -223,6 +235,10 @@ def obs_legacy(args):
     mode, n, seed, nseq, singles = args[:5]
     route = args[5] if len(args) > 5 else "ctor"
     layer = "P" if 1 <= n <= NMAX else "M"  # max_grid_size = 0 is outside the statement's 1..50
+    if route != "ctor":
+        # history (classes A / E): another tokenizer of the same mode and size was built in this process before, and
+        # the caller wrecked the list / dict it got from it
+        _run(lambda: _wreck(_legacy(mode, n, "ctor")))
     res, got = _run(lambda: _legacy_build(mode, n, route))
     if res != "ok":
         return dict(kind="legacy", mode=mode, n=n, seed=seed, route=route, layer=layer, res=res, arr=[], map=[], encs=[], decs=[], info={}, vsize=-1, ntok=-1, pad=-1)
@@ -275,14 +291,14 @@ def obs_legacy(args):
     )
     vsize, ntok, pad = _m1(_run(lambda: tk.vocab_size)[1]), _m1(_run(lambda: tk.n_tokens)[1]), _m1(_run(lambda: tk.padding_token_index)[1])
     # the returned list / dict belong to the caller: wreck them; tokenizers built later in this process must not notice
-    _run(lambda: (_clobber(tk.token_arr, "<clobbered>"), _clobber(tk.tokenizer_map, None)))
+    _run(lambda: _wreck(tk))
     return dict(kind="legacy", mode=mode, n=n, seed=seed, route=route, layer=layer, res="ok", arr=arr, map=tmap, encs=encs, decs=decs, info=info, vsize=vsize, ntok=ntok, pad=pad)
 
 
 def _prefix_arr(k):
     tk = _legacy("AOTP_UT_uniform", k, ROUTES[k % len(ROUTES)])
     got = _strs(tk.token_arr)
-    _clobber(tk.token_arr, "<clobbered>")
+    _run(lambda: _wreck(tk))
     return got
 
 
@@ -639,6 +655,7 @@ def _canaries():
     add(cf3, "cf_prefix_broken", lambda c: swap(c["lists"][1], 1, 2))
     add(cf3, "cf_not_permutation_of_grid", lambda c: c["lists"][2].__setitem__(8, [0, 0]))
     add(cf3, "cf_raises", lambda c: c.update(res="raise:ValueError", lists=[]))
+    add(cf3, "cf_not_permutation_of_grid", lambda c: c["lists"].__setitem__(1, []))  # an earlier answer wrecked by the caller came back
     # legacy vocabularies
     ras = _legacy_rec("AOTP_UT_rasterized", 2, _SPECIALS + _ut([[0, 0], [0, 1], [1, 0], [1, 1]]))
     add(_legacy_rec("AOTP_UT_rasterized", 2, _SPECIALS + _ut([[0, 0], [1, 0], [0, 1], [1, 1]])), "legacy_not_row_major")
@@ -672,6 +689,7 @@ def _canaries():
     add(lp, "legacy_prefix_broken", lambda c: swap(c["arrs"][1], 12, 13))
     add(lp, "legacy_prefix_broken", lambda c: c["arrs"].__setitem__(2, _SPECIALS + _ut([[i, j] for i in range(3) for j in range(3)])))
     add(lp, "legacy_vocabulary_raises", lambda c: c.update(res="raise:KeyError", arrs=[]))
+    add(lp, "legacy_prefix_broken", lambda c: c["arrs"].__setitem__(0, []))
     # modular codec
     toks, ids = ["(0,0)", "THEN", "<PADDING>", "-1", "STEP"], [1596, 17, 10, 703, 704]
     enc = dict(kind="enc", toks=list(toks), form="list", via="class", layer="P", argmod=False, res="ok", ids=list(ids), sres="ok", sids=list(ids), back_res="ok", back=list(toks))
@@ -793,7 +811,8 @@ def main(chk: lib.Check) -> int:
     # second audit: these repeat builds go through the OTHER construction routes (factory, load(serialize()), numpy-int
     # size, dataclasses.replace of a tokenizer of another size) and read the cached properties in another order; every
     # observation ends by wrecking the returned token_arr / tokenizer_map, which later builds must not notice
-    desc = [(m, n, chk.seed + 1, 2, False, ROUTES[1 + (n + i) % 4]) for n in range(NMAX, 0, -1) for i, m in enumerate(MODES)]
+    # (quick: one alternative route per (mode, size); thorough: all four)
+    desc = [(m, n, chk.seed + 1, 2, False, r) for n in range(NMAX, 0, -1) for i, m in enumerate(MODES) for r in (ROUTES[1:] if thorough else (ROUTES[1 + (n + i) % 4],))]
     leg2 = lib.pmap(obs_legacy, desc, chunksize=len(desc) // 8 + 1)
     scr = [(m, n, chk.seed + 2, 2, False, ROUTES[(n + 2 * i) % 5]) for n in [40, 3, 17, 2, 50, 7, 1, 23, 4, 12, 5, 33, 6, 9] for i, m in enumerate(MODES)]
     leg2 += [obs_legacy(a) for a in scr]
